@@ -122,7 +122,7 @@ fn cases(rng: &mut Rng, id: usize) -> Vec<Case> {
     // arbitrary card trees: the front-end must answer, whatever it is
     let tree = prog((0..1 + rng.below(3)).map(|_| random_tree(rng, 4)).collect(), vec![func("f1", &["a"], vec![random_tree(rng, 3)])]);
     v.push(dflt("compile-only", tree, false));
-    match id % 12 {
+    match id % 13 {
         0 => {
             let depth = 300 + rng.below(400);
             let mut c = dflt("call-depth", prog(vec![call("r", vec![int(depth as i64)])],
@@ -193,6 +193,22 @@ fn cases(rng: &mut Rng, id: usize) -> Vec<Case> {
                 _ => setg("r", card("Equals", vec![read("t"), read("u")])),
             };
             v.push(dflt("cyclic-table", prog(vec![setv("t", card("CreateTable", vec![])), setv("u", card("CreateTable", vec![])), setv("t.me", read("t")), setv("u.me", read("u")), use_it], vec![]), true));
+        }
+        11 => {
+            // strings around the sizes the code treats specially (one-byte lengths, the 256-byte read window, 64 KiB),
+            // as literal, as property name, as native-function name and as variable name
+            let lens = [0usize, 1, 2, 127, 128, 250, 251, 252, 253, 254, 255, 256, 257, 258, 259, 260, 511, 512, 1000, 4096, 65535, 65536, 70000];
+            let l = *rng.pick(&lens);
+            let s: String = std::iter::repeat('x').take(l).collect();
+            let body = match rng.below(5) {
+                0 => vec![setg("r", strlit(&s)), setg("n", card("Len", vec![read("r")]))],
+                1 => vec![setv("t", card("CreateTable", vec![])), setv(&format!("t.{s}"), int(1)), setg("r", read(&format!("t.{s}")))],
+                2 => vec![setg("r", named("NativeFunction", &s, vec![])), setg("q", native(&s, vec![]))],
+                3 => vec![setv(&s, int(1)), setg(&s, read(&s))],
+                _ => vec![setg("r", card("Equals", vec![strlit(&s), strlit(&s)])), setv("t", card("CreateTable", vec![])),
+                          card("SetProperty", vec![int(1), read("t"), strlit(&s)]), setg("q", card("GetProperty", vec![read("t"), strlit(&s)]))],
+            };
+            v.push(dflt("long-strings", prog(body, vec![]), true));
         }
         10 => {
             let n = 1 + rng.below(64);
